@@ -188,6 +188,10 @@ def run(ctx):
         elif must and not o.startswith("E:"):
             pfam.report(ctx, "emitted-unsupported:" + must[0], {"kind": "input", "entry": "source", "dialect": d, "print_dialect": sd, "input": t, "observed": o[:300],
                                                                 "oracle": "c13: %s is not available in %s: the printer must refuse" % (must, sd), "how_found": "stream print-pairs"})
+        elif not must and d == sd == "HIVE" and o.startswith("E:"):
+            # "parsing then printing in the same dialect round-trips": a Hive parse printed for Hive has no construct its dialect lacks, so no refusal is due
+            pfam.report(ctx, "refused-in-own-dialect", {"kind": "input", "entry": "source", "dialect": d, "print_dialect": sd, "input": t, "observed": o[:300],
+                                                        "oracle": "c13: a statement parsed as HIVE must be printable as HIVE (no construct of it is foreign to the dialect)", "how_found": "stream print-pairs"})
     for f in ctx.findings:
         if f.get("status") == "finding" and "plain" in f.get("witness", {}):
             w = f["witness"]
@@ -210,4 +214,6 @@ def replay(payload):
         return 0 if a[0] == a[1] else 1
     a = E.run_impl([pfam.req_print(payload["dialect"], payload.get("print_dialect", payload["dialect"]), payload["input"])])[0]
     print(a[:400])
+    if "own dialect" in payload.get("oracle", "") or "printable as HIVE" in payload.get("oracle", ""):
+        return 1 if " E:" in a else 0
     return 1
